@@ -305,10 +305,22 @@ def Part.readline (p : Part) (s : Stream) : Except Err (Bytes × Part × Stream)
 def isTchar (c : UInt8) : Bool := Gen.C19.tcharBytes.contains c.toNat
 def valueForbidden (c : UInt8) : Bool := Gen.C19.valueForbidden.any (fun r => r.1 ≤ c.toNat && c.toNat ≤ r.2)
 
+/-- `CIMultiDict.get(name)`: the first value (writer side: `payload.headers`) -/
 def getHeader (hs : List (Bytes × Bytes)) (lname : Bytes) : Option Bytes :=
   match hs.find? (fun kv => lower kv.1 == lname) with
   | some kv => some kv.2
   | none => none
+
+def joinComma : List Bytes → Bytes
+  | [] => []
+  | [v] => v
+  | v :: t => v ++ [44, 32] ++ joinComma t
+
+/-- `HeadersDictProxy.get(name)`: all values joined with `", "` (reader side: `part.headers`) -/
+def getJoined (hs : List (Bytes × Bytes)) (lname : Bytes) : Option Bytes :=
+  match hs.filter (fun kv => lower kv.1 == lname) with
+  | [] => none
+  | l => some (joinComma (l.map (·.2)))
 
 /-- `HeadersParser(lax=False).parse_headers(lines)`; `lines` ends with the empty line -/
 def parseHeaders : List Bytes → List (Bytes × Bytes) → Except Err (List (Bytes × Bytes))
@@ -427,7 +439,7 @@ def allDigits (b : Bytes) : Bool := !b.isEmpty && b.all isDigit
 
 /-- `_get_part_reader(headers)` and the constructor it calls -/
 def partReader (cfg : Cfg) (f : Frame) (hs : List (Bytes × Bytes)) : Except Err NextOut :=
-  let mt := parseMimetype ((getHeader hs (ascii "content-type")).getD [])
+  let mt := parseMimetype ((getJoined hs (ascii "content-type")).getD [])
   if mt.type = asciiMultipart then
     match mt.params.find? (fun kv => kv.1 == ascii "boundary") with
     | none => .error .value
@@ -437,13 +449,13 @@ def partReader (cfg : Cfg) (f : Frame) (hs : List (Bytes × Bytes)) : Except Err
   else
     let len : Except Err (Option Nat) :=
       if f.isForm then .ok none else
-      match getHeader hs (ascii "content-length") with
+      match getJoined hs (ascii "content-length") with
       | none => .ok none
       | some v => if allDigits v then .ok (ofDec v) else .error .value
     match len with
     | .error e => .error e
     | .ok len =>
-      let b64 := match getHeader hs (ascii "content-transfer-encoding") with
+      let b64 := match getJoined hs (ascii "content-transfer-encoding") with
         | some v => lower v = ascii "base64"
         | none => false
       .ok (.body { boundary := f.boundary, headers := hs, length := len, isB64 := b64, maxSize := cfg.maxSize })
